@@ -592,7 +592,12 @@ func genJSONDoc(r *Rng, depth int) string {
 		keys = append(keys, "__default__")
 	}
 	for i := 0; i < k; i++ {
-		items = append(items, fmt.Sprintf("%q:%s%s", Pick(r, keys), Pick(r, []string{"", " "}), genJSONDoc(r, depth-1)))
+		key := fmt.Sprintf("%q", Pick(r, keys))
+		if r.Chance(8) {
+			// names written with escapes, unpaired surrogates among them (valid JSON: a reader replaces them)
+			key = Pick(r, []string{`"\ud800x"`, `"k\udc00"`, `"\u00e9"`, `"a\nb"`, `"\ud83d\ude00"`, `"\ud800"`, `"\/"`})
+		}
+		items = append(items, fmt.Sprintf("%s:%s%s", key, Pick(r, []string{"", " "}), genJSONDoc(r, depth-1)))
 	}
 	return "{" + strings.Join(items, ",") + "}"
 }
